@@ -271,11 +271,11 @@ pub fn def(tier: Tier) -> PropertyDef {
 	let mut checks: Vec<Box<dyn SubCheck>> = Vec::new();
 	checks.push(enumerate("defaults", |_, _| Box::new(std::iter::once(0u8)), run_defaults));
 	for name in cfggen::NAMES {
-		checks.push(pt(&format!("set_{name}"), tier.pick(6000, 30000), set_strategy(name), run_set));
+		checks.push(pt(&format!("set_{name}"), tier.pick(6000, 300000), set_strategy(name), run_set));
 		let strat = (cfggen::config_strategy(name, GenOpts { wide: false, price_sources: true, nonneg_ma: false }), gen::candle_stream(1, tier.pick(120, 400))).prop_map(|(cfg, s)| ShapeCase { cfg, s });
-		checks.push(pt(&format!("shape_dyn_{name}"), tier.pick(800, 4000), strat, run_shape));
+		checks.push(pt(&format!("shape_dyn_{name}"), tier.pick(800, 30000), strat, run_shape));
 	}
-	checks.push(pt("result_new", tier.pick(5000, 50000), (proptest::collection::vec(-1e6f64..1e6, 0..8), proptest::collection::vec(prop_oneof![Just(i16::MIN), -255i16..=255], 0..8)).prop_map(|(values, signals)| ResCase { values, signals }), run_result_new));
+	checks.push(pt("result_new", tier.pick(5000, 500000), (proptest::collection::vec(-1e6f64..1e6, 0..8), proptest::collection::vec(prop_oneof![Just(i16::MIN), -255i16..=255], 0..8)).prop_map(|(values, signals)| ResCase { values, signals }), run_result_new));
 	let _ = fail_unused;
 	checks.extend(crate::fuzz_entry::corpus_checks("C11"));
 	PropertyDef {
